@@ -83,6 +83,7 @@ func graveyardWorker(db *DB, ctx context.Context, gcRateLimitInterval time.Durat
 			continue
 		}
 
+		vhook("gc.scanned")
 		// Dead objects found, do a write transaction against all tables with dead objects in them.
 		tablesToModify := slices.Collect(maps.Keys(toBeDeleted))
 		wtxn := db.WriteTxn(tablesToModify...)
@@ -102,6 +103,7 @@ func graveyardWorker(db *DB, ctx context.Context, gcRateLimitInterval time.Durat
 			cleaningTimes[tableName] = time.Since(start)
 		}
 		wtxn.Commit()
+		vhook("gc.committed")
 
 		for tableName, stat := range cleaningTimes {
 			db.metrics.GraveyardCleaningDuration(
